@@ -115,6 +115,9 @@ def components():
     add('os', lambda i: [('t%d' % i, I(1)), ('o%d' % i, O(I(2, signed=True), F('t%d' % i)))])
     add('od', lambda i: [('t%d' % i, I(1)), ('o%d' % i, O(I(1), F('t%d' % i), default=7))])
     add('ord', lambda i: [('t%d' % i, I(1)), ('o%d' % i, O(R(PT), F('t%d' % i), default=PV('Pt', {'x': 7, 'y': 2})))])
+    # payloads that may consume no byte at all (present, yet nothing to read)
+    add('oz', lambda i: [('t%d' % i, I(1)), ('n%d' % i, I(1)), ('o%d' % i, O(D(F('n%d' % i)), F('t%d' % i)))])
+    add('o0', lambda i: [('t%d' % i, I(1)), ('o%d' % i, O(D(C(0)), F('t%d' % i)))])
     add('oo', lambda i: [('t%d' % i, I(1)), ('o%d' % i, O(I(1), F('t%d' % i))), ('w%d' % i, O(I(1), F('o%d' % i)))])
     # ---- positioning
     add('p_at3', lambda i: [('a%d' % i, pos(I(1), 'at', C(3)))])
@@ -134,6 +137,7 @@ def components():
     add('p_al4i', lambda i: [('a%d' % i, pos(I(2), 'aligned', C(4), ref='innermost-pkt'))])
     add('p_al2c', lambda i: [('a%d' % i, pos(I(1), 'aligned', C(2), ref='current-offset'))])
     add('p_aln', lambda i: [('n%d' % i, I(1, default=2)), ('a%d' % i, pos(I(1), 'aligned', F('n%d' % i), ref='innermost-pkt'))])
+    add('p_atdiv', lambda i: [('n%d' % i, I(1)), ('a%d' % i, pos(I(1), 'at', BIN('floordiv', C(4), F('n%d' % i)), sp='lambda'))])
     add('p_em4', lambda i: [('e%d' % i, pos(EM(), 'aligned', C(4)))])
     add('p_em2i', lambda i: [('e%d' % i, pos(EM(), 'aligned', C(2), ref='innermost-pkt'))])
     add('em', lambda i: [('e%d' % i, EM())])
@@ -163,7 +167,7 @@ def extras():
 EXTRA = extras()
 
 # one representative per mechanism, used for pairs in the quick tier and triples in the thorough tier
-REDUCED = ['i1', 'i2l', 'i3', 'dn', 'dx', 'm0', 'mab', 'rx', 'rxlb', 'b35', 'r1', 'rs', 'rst', 'sn', 'ss', 'su', 'suo', 'sua', 'sw', 'sa', 'sr', 'o1', 'os', 'or',
+REDUCED = ['i1', 'i2l', 'i3', 'dn', 'dx', 'm0', 'mab', 'rx', 'rxlb', 'b35', 'r1', 'rs', 'rst', 'sn', 'ss', 'su', 'suo', 'sua', 'sw', 'sa', 'sr', 'o1', 'oz', 'os', 'or',
            'p_at3', 'p_atn', 'p_shm1', 'p_shm2d', 'p_al2', 'p_al3', 'p_al4i', 'p_em4', 'p_d0', 'eos']
 
 
